@@ -112,7 +112,10 @@ class _FuseReluClipBase(RewriteRuleClassBase, abc.ABC):
             if ir.convenience.get_const_tensor(m) is None:
                 return check_result.fail(f"{m.name} is not a constant.")
 
-        if first_clip_node.inputs[0].dtype is None:
+        clip_nodes = [first_clip_node]
+        if out_second_clip := kwargs.get("out_second_clip"):
+            clip_nodes.append(out_second_clip.producer())
+        if any(node.inputs[0].dtype is None for node in clip_nodes):
             # The fused bounds are created with the dtype of the Clip input.
             return check_result.fail("The element type of the Clip input is not known.")
 
